@@ -223,6 +223,20 @@ Example C03_example_convergence_cut :
   rows_equal c (t_c (hosts (run_cycles c s cs))) (t_b (hosts (run_cycles c s cs))) = true.
 Proof. vm_compute. repeat split. Qed.
 
+(** observation (outside the theorems: the change is not detectable, [det_hyp] fails):
+    on a backend with last_update the refetch after a timeperiod change skips
+    every row whose last_update and last_check are unchanged - in_check_period
+    stays stale; the same history on a backend without last_update refreshes it *)
+Example C03_observation_timeperiod_refetch_skipped :
+  let evs := [ETpFlip 0; EMut false 0 (mkMut 1001 false false [0;0;1;1;0] 1200 [0] [0] 0); ETpRefresh 0] in
+  let c := mkCfg false true false 3 7 false in
+  let s := run c (init_st c 1000 [(mkRow 900 900 [0;0;1;1;0] 1200 0 [1] [0] 0, [0%nat])] [] [1]) evs in
+  let c' := mkCfg false false false 3 7 false in
+  let s' := run c' (init_st c' 1000 [(mkRow 900 0 [0;0;1;1;0] 1200 0 [1] [0] 0, [0%nat])] [] [1]) evs in
+  ctp s = btp s /\ map r_ints (t_c (hosts s)) = [[1]] /\ map (fun o => r_ints (cur o)) (t_b (hosts s)) = [[0]] /\
+  det_hyp s = false /\ map r_ints (t_c (hosts s')) = [[0]].
+Proof. vm_compute. repeat split. Qed.
+
 Print Assumptions C03_compose_ts_exact.
 Print Assumptions C03_row_integrity.
 Print Assumptions C03_row_integrity_every_moment.
